@@ -239,7 +239,7 @@ func (h *Hello) UnmarshalBinary(data []byte) error {
 			if e.Length < 4 {
 				return errors.New("The hello element length is shorter than its header.")
 			}
-			next += int(e.Length+7) / 8 * 8
+			next += (int(e.Length) + 7) / 8 * 8
 		}
 	}
 	return err
